@@ -33,8 +33,8 @@ DRIVER = "dm_reduce"
 LEAN_MODULES = ["DaskModel.Props.C30"]
 CASE_TIMEOUT_S = 40
 LEVEL_TEXT = (
-    "PARTIAL. Proved in Lean 4 for a 1-d integer expression language (leaf, elementwise neg/add, slice, rechunk, "
-    "concatenate, finalize): chunks_sum (reported chunks always sum to the length of the denoted value), step_sound / "
+    "PARTIAL. Proved in Lean 4 for a 1-d integer expression language (leaf, elementwise neg/abs/square, add/sub/mul/maximum "
+    "of two arrays or array and scalar, slice, rechunk, concatenate, finalize): chunks_sum (reported chunks always sum to the length of the denoted value), step_sound / "
     "step_chunks (each rewrite the engine has in this tree — rechunk elision, FinalizeCompute → operand or "
     "rechunk-to-one-block, Elemwise operand alignment — preserves value, shape and reported chunks), parStep_sound (a "
     "whole simplify/lower pass accepted by the executable checker preserves the denotation) and chain_sound (any "
@@ -103,10 +103,12 @@ def to_sexp(n):
     t = n["t"]
     if t == "leaf":
         return [Sym("leaf"), [int(v) for v in n["data"]], n["chunks"]]
-    if t == "neg":
-        return [Sym("neg"), to_sexp(n["a"])]
-    if t == "add":
-        return [Sym("add"), to_sexp(n["a"]), to_sexp(n["b"])]
+    if t == "un":
+        return [Sym("un"), Sym(n["op"]), to_sexp(n["a"])]
+    if t == "bin":
+        return [Sym("bin"), Sym(n["op"]), to_sexp(n["a"]), to_sexp(n["b"])]
+    if t == "bins":
+        return [Sym("bins"), Sym(n["op"]), to_sexp(n["a"]), int(n["s"])]
     if t == "slice":
         return [Sym("slice"), n["s"], n["e"], to_sexp(n["a"])]
     if t == "rechunk":
@@ -260,9 +262,13 @@ def _trace_prog(rng, n, depth):
         return _leaf1(rng, n)
     r = rng.random()
     if r < 0.2:
-        return {"op": "unary", "fn": "negative", "a": _trace_prog(rng, n, depth - 1)}
+        return {"op": "unary", "fn": rng.choice(["negative", "negative", "abs", "square"]), "a": _trace_prog(rng, n, depth - 1)}
+    if r < 0.28:
+        return {"op": "binary", "fn": rng.choice(["add", "subtract", "multiply", "maximum"]), "a": _trace_prog(rng, n, depth - 1),
+                "b": {"scalar": rng.randint(-3, 3)}}
     if r < 0.5:
-        return {"op": "binary", "fn": "add", "a": _trace_prog(rng, n, depth - 1), "b": _trace_prog(rng, n, depth - 1)}
+        return {"op": "binary", "fn": rng.choice(["add", "add", "subtract", "multiply", "maximum"]),
+                "a": _trace_prog(rng, n, depth - 1), "b": _trace_prog(rng, n, depth - 1)}
     if r < 0.68:
         m = n + rng.randint(0, 4)
         s = rng.randint(0, m - n)
